@@ -776,6 +776,7 @@ func scenarios() []Scenario {
 			Reqs: []engx.Req{
 				ik(engx.Req{Kind: "savemeta", Target: "ACCOUNT", TargetID: "bob", Meta: map[string]string{"a": "1"}}, "k31"),
 				ik(engx.Req{Kind: "savemeta", Target: "ACCOUNT", TargetID: "alice", Meta: map[string]string{"a": "2"}}, "k31"),
+				ik(engx.Req{Kind: "savemeta", Target: "ACCOUNT", TargetID: "alice", Meta: map[string]string{"b": "1"}}, "k31"),
 				ik(metaA, "k31"),
 				ik(engx.Req{Kind: "delmeta", Target: "ACCOUNT", TargetID: "alice", Key: "b"}, "k36"),
 				ik(engx.Req{Kind: "savemeta", Target: "TRANSACTION", TargetID: "1", Meta: map[string]string{"a": "1"}}, "k37")},
@@ -837,6 +838,12 @@ func scenarios() []Scenario {
 			ref(xfer(30, "alice", "carol"), "r14"), ref(xfer(30, "alice", "carol"), "r14")},
 			Directed: [][]string{
 				{"start(0)", "resume(0)*", "cancel(0)", "start(1)", "resume(1)*", "persist_ok(-1)", "resume(0)*", "resume(1)*", "persist_ok(-1)", "resume(1)*"},
+			}},
+		{Name: "cancel-at-wait-then-revert-again", Setup: []engx.Req{fund("alice", 100), xfer(40, "alice", "bob"), fund("bob", 100)}, Cancel: true, Budget: 160, Reqs: []engx.Req{
+			{Kind: "revert", RevertID: 1}, {Kind: "revert", RevertID: 1}},
+			Directed: [][]string{
+				{"start(0)", "resume(0)*", "cancel(0)", "start(1)", "resume(1)*", "persist_ok(-1)", "resume(0)*", "resume(1)*", "persist_ok(-1)", "resume(1)*"},
+				{"start(0)", "resume(0)*", "cancel(0)", "resume(0)*", "start(1)", "resume(1)*", "persist_ok(-1)", "resume(1)*", "persist_ok(-1)", "resume(1)*"},
 			}},
 		{Name: "cancel-queued-revert", Setup: []engx.Req{fund("alice", 100), xfer(40, "alice", "bob")}, Cancel: true, Budget: 160, Reqs: []engx.Req{
 			xfer(10, "bob", "carol"), ik(engx.Req{Kind: "revert", RevertID: 1}, "k13"), {Kind: "revert", RevertID: 1}},
@@ -1256,9 +1263,23 @@ func genHistory(g *vx.Rng, n int, txSoFar *int) []engx.Req {
 		case c < 8:
 			h = append(h, engx.Req{Kind: "revert", RevertID: int64(g.Intn(*txSoFar + 1)), Force: g.Chance(1, 3)})
 		case c < 9:
-			h = append(h, engx.Req{Kind: "savemeta", Target: "ACCOUNT", TargetID: accs[g.Intn(3)], Meta: map[string]string{"k": fmt.Sprint(g.Intn(3))}})
+			q := engx.Req{Kind: "savemeta", Target: "ACCOUNT", TargetID: accs[g.Intn(3)], Meta: map[string]string{"k": fmt.Sprint(g.Intn(3))}}
+			if g.Chance(1, 2) { // on a transaction that may not exist
+				q.Target, q.TargetID = "TRANSACTION", fmt.Sprint(g.Intn(*txSoFar+3))
+			}
+			if g.Chance(1, 3) {
+				q.IK = fmt.Sprintf("k%d", g.Intn(3)) // possibly a key another request stored
+			}
+			h = append(h, q)
 		default:
-			h = append(h, engx.Req{Kind: "delmeta", Target: "ACCOUNT", TargetID: accs[g.Intn(3)], Key: "k"})
+			q := engx.Req{Kind: "delmeta", Target: "ACCOUNT", TargetID: accs[g.Intn(3)], Key: "k"}
+			if g.Chance(1, 2) {
+				q.Target, q.TargetID = "TRANSACTION", fmt.Sprint(g.Intn(*txSoFar+3))
+			}
+			if g.Chance(1, 3) {
+				q.IK = fmt.Sprintf("k%d", g.Intn(3))
+			}
+			h = append(h, q)
 		}
 	}
 	return h
@@ -1518,6 +1539,9 @@ func batcherShutdown(r *vx.Run) {
 			in := map[string]any{"max_batch_size": maxBatch, "items": n, "batches": batches, "shutdown": "close while the first batch is in the store call"}
 			if early != "" {
 				r.FailP("C06", "batcher:shutdown-acknowledges-an-entry-never-persisted", in, early, n)
+				// the Commander publishes a request's event when its acknowledgement arrives: an acknowledgement without
+				// persistence is an event for a change that was never committed
+				r.FailP("C16", "batcher:shutdown-acknowledges-an-entry-never-persisted:its-event-is-published-without-an-entry", in, early, n)
 			}
 			for i := 1; i <= n; i++ {
 				if cbCount[i] > 1 {
